@@ -137,7 +137,8 @@ def _build_streams(case):
             for k, (gap, ops) in enumerate(zip(gaps, all_ops)):
                 t += gap
                 st_type = metrics.SampleType.Warmup if k < c["warmup"] else metrics.SampleType.Normal
-                tp = (ops * 3 + 1.5) if tspec["runner_throughput"] else None
+                # (a runner may well report a throughput of exactly 0: recovery of an empty index, a stalled job)
+                tp = (0.0 if ops == 0 else ops * 3 + 1.5) if tspec["runner_throughput"] else None
                 s = driver.Sample(
                     client_id,
                     start + t,  # absolute_time
